@@ -1,4 +1,5 @@
 import Abverif.Proofs.Lemmas.SessEnd
+import Abverif.Proofs.Lemmas.SessOrderStep
 import Abverif.Model.SessTrace
 /-
 C06 — WAMP sessions end cleanly on every path and leave nothing pending.
@@ -23,25 +24,59 @@ def handshake : InMsg → Bool
   | .welcome _ | .abort | .challenge | .other => true
   | _ => false
 
-/-- `pre_session_gate`: before the session is established anything but WELCOME / ABORT / CHALLENGE — and afterwards
-every handshake message — raises `ProtocolError` out of `onMessage` and changes *nothing*: no hook runs, nothing is
-sent, no future is touched. For every state, both scheduling modes, whatever the hooks would do. -/
+/-- `pre_session_gate`: before the session is established anything but WELCOME / ABORT / CHALLENGE — afterwards
+every handshake message — and once the session or the attempt to join is over (`onLeave` has been called, `join()` not
+again) EVERY message, WELCOME / ABORT / CHALLENGE included (ledger F11 and its family, repaired) — raises `ProtocolError`
+out of `onMessage` and changes *nothing*: no hook runs, nothing is sent, no future is touched. For every state, both
+scheduling modes, whatever the hooks would do. -/
 theorem pre_session_gate (s : Sess) (beh : List HAct) (m : InMsg) :
     (s.sessionId = none → legalBefore m = false → step s (.msg m beh) = (s, [.raise_ .protocolError])) ∧
-    (s.sessionId.isSome = true → handshake m = true → step s (.msg m beh) = (s, [.raise_ .protocolError])) := by
-  constructor
+    (s.sessionId.isSome = true → handshake m = true → step s (.msg m beh) = (s, [.raise_ .protocolError])) ∧
+    (s.sessionId = none → s.ended = true → step s (.msg m beh) = (s, [.raise_ .protocolError])) := by
+  refine ⟨?_, ?_, ?_⟩
   · intro hs hm
-    simp only [step, onMessage, hs]
-    cases m <;> simp [legalBefore] at hm <;> rfl
+    simp only [step, onMessage, hs, preSession]
+    split
+    · rfl
+    · cases m <;> simp [legalBefore] at hm <;> rfl
   · intro hs hm
     obtain ⟨sid, hsid⟩ := Option.isSome_iff_exists.mp hs
     simp only [step, onMessage, hsid]
     cases m <;> simp [handshake] at hm <;> rfl
+  · intro hs he
+    simp [step, onMessage, hs, preSession, he]
 
-/-- the Spec's notion of an illegal message agrees with the two predicates above -/
-theorem isIllegal_iff (welcomed : Bool) (m : InMsg) :
-    isIllegal welcomed m = (if welcomed then handshake m else (!legalBefore m || m == .other)) := by
-  cases welcomed <;> cases m <;> rfl
+/-- the Spec's notion of an illegal message agrees with the predicates above -/
+theorem isIllegal_iff (welcomed ended : Bool) (m : InMsg) :
+    isIllegal welcomed ended m =
+      (if welcomed then handshake m else (!legalBefore m || m == .other || (ended && handshake m))) := by
+  cases welcomed <;> cases ended <;> cases m <;> rfl
+
+/-- `session_end_is_recorded`: each of the three ways a session / an attempt to join ends inside `onMessage` — router
+ABORT, the GOODBYE that ends a joined session, a failing `onChallenge` (own ABORT) — leaves the session without id and
+with the record set *whatever `onLeave` does short of calling `join()` again*; stated here for the state `onLeave` is
+entered with, which is what a `join()` made from inside `onLeave` (the re-join idiom) overwrites -/
+theorem session_end_is_recorded (s : Sess) (beh : List HAct) (lact : HAct) :
+    (s.sessionId = none → s.ended = false →
+      step s (.msg .abort beh) = leaveHook { s with ended := true } 2 (beh.headD {})) ∧
+    (∀ sid, s.sessionId = some sid → s.transport = true →
+      (step s (.msg .goodbye beh)).1 = (leaveHook { s with sessionId := none, ended := true } 0 (beh.headD {})).1) ∧
+    (s.transport = true →
+      challengeFail s lact = ((leaveHook { s with ended := true } 3 lact).1,
+        [.userError, .send { typ := .abort }] ++ (leaveHook { s with ended := true } 3 lact).2)) := by
+  refine ⟨?_, ?_, ?_⟩
+  · intro hs he; simp [step, onMessage, hs, preSession, he, preSessionOpen]
+  · intro sid hs ht; simp [step, onMessage, hs, onEstablished, ht]
+  · intro ht; simp [challengeFail, ht]
+
+/-- `onOpen` and `join()` — and nothing else — clear the record: a new connection, a new attempt -/
+theorem open_and_join_clear_the_record (s : Sess) (acts : List HAct) :
+    (s.sessionId = none → s.transport = true → (apiJoin s).1.ended = false ∧ (apiJoin s).2 = [.send { typ := .hello }]) ∧
+    (apiLeave s).1.ended = s.ended ∧ (apiDisconnect s).1.ended = s.ended := by
+  refine ⟨?_, ?_, ?_⟩
+  · intro hs ht; simp [apiJoin, hs, ht]
+  · unfold apiLeave; split <;> (try split) <;> (try split) <;> rfl
+  · unfold apiDisconnect; split <;> rfl
 
 /-- non-vacuity: RESULT before WELCOME; a second WELCOME, a CHALLENGE and an ABORT inside the session -/
 example : runOuts (init .sync) [.open_ [], .msg (.result 1 {} false) [], .msg (.welcome 5) [], .msg (.welcome 6) [],
@@ -147,9 +182,9 @@ in this session); either way the session is over afterwards and `onLeave` is cal
 theorem goodbye_answered_iff_not_initiator (s : Sess) (sid : Nat) (hs : s.sessionId = some sid) (ht : s.transport = true)
     (beh : List HAct) :
     let r := step s (.msg .goodbye beh)
-    (s.goodbyeSent = false → r.2 = .send { typ := .goodbye } :: (leaveHook { s with sessionId := none } 0 (beh.headD {})).2) ∧
-    (s.goodbyeSent = true → r.2 = (leaveHook { s with sessionId := none } 0 (beh.headD {})).2) ∧
-    r.1 = (leaveHook { s with sessionId := none } 0 (beh.headD {})).1 := by
+    (s.goodbyeSent = false → r.2 = .send { typ := .goodbye } :: (leaveHook { s with sessionId := none, ended := true } 0 (beh.headD {})).2) ∧
+    (s.goodbyeSent = true → r.2 = (leaveHook { s with sessionId := none, ended := true } 0 (beh.headD {})).2) ∧
+    r.1 = (leaveHook { s with sessionId := none, ended := true } 0 (beh.headD {})).1 := by
   simp only [step, onMessage, hs, onEstablished, ht]
   refine ⟨fun h => by simp [h], fun h => by simp [h], by simp⟩
 
@@ -207,20 +242,55 @@ instance (mode : Sched) (h : List SEv) : Decidable (CleanEnd mode h) := by unfol
 /-- the full statement: for every history -/
 def CallbacksOrderedOnce : Prop := ∀ (mode : Sched) (h : List SEv), CleanEnd mode h
 
-/-- it fails (F11): two ABORT before WELCOME — `onLeave` (and 'leave') a second time -/
-theorem callbacks_ordered_once_fails_F11 : ¬ CallbacksOrderedOnce := by
-  intro h
-  have := h .sync [.open_ [], .msg .abort [], .msg .abort [], .closed []]
-  revert this; decide
+/-- regression (ledger F11 and its family, repaired: the pre-session branch now keeps a record that the join attempt or the
+session of this connection is over): the histories that used to refute the statement on Twisted — two ABORT before
+WELCOME; WELCOME after the GOODBYE that ended the session; ABORT / WELCOME / a failing CHALLENGE after each of the three
+endings — are clean: the late message is a protocol violation and nothing else happens -/
+example : CleanEnd .sync [.open_ [], .msg .abort [], .msg .abort [], .closed []] := by decide
+example : CleanEnd .sync [.open_ [], .msg (.welcome 7) [], .msg .goodbye [], .msg (.welcome 9) [], .closed []] := by decide
+example : CleanEnd .sync [.open_ [], .msg .challenge [{ raises := true }], .msg (.welcome 9) [], .msg .abort [],
+    .msg .challenge [{ raises := true }], .closed []] := by decide
+example : CleanEnd .deferred [.open_ [], .pump, .msg .abort [], .pump, .msg (.welcome 9) [], .pump, .msg .abort [], .pump,
+    .closed [], .pump] := by decide
 
-/-- … the same root cause (the pre-session branch keeps no record that the join attempt or the session is over): WELCOME
-after the GOODBYE that ended the session joins again — `onJoin` after `onLeave` -/
-theorem callbacks_ordered_once_fails_welcome_after_goodbye : ¬ CallbacksOrderedOnce := by
-  intro h
-  have := h .sync [.open_ [], .msg (.welcome 7) [], .msg .goodbye [], .msg (.welcome 9) [], .closed []]
-  revert this; decide
+/-- **`callbacks_ordered_once` on Twisted** (since the repair of the F11 family). For EVERY history in which the
+transport is used the way the transports use it (`wfHist`: `onOpen` only without a transport, `onClose` and messages only
+with one) and user code — hooks, handlers, endpoints, the application — never calls `join()` itself, whatever else it
+does (raises, overrides without `super()`, `leave()`, `disconnect()`, requests of every kind), whatever the router sends
+(legal or not, any number of ABORT / WELCOME / CHALLENGE / GOODBYE at any position) and wherever the transport is lost:
+the trace Spec finds in the model's own trace no callback or observer out of the order connect, join, (ready,) leave,
+disconnect or a second time on one connection (`hookOrder`, `obsOrder`), no `onLeave` without a session end / aborted
+join (`leaveUnexpected`) and none missing (`leaveMissing`), and no message that is illegal in its phase handled as
+anything but a protocol violation (`gate`). Proof: an invariant between the model's state and the six fields of the
+Spec's reader these clauses depend on (`Lemmas/SessOrderSpec.lean`: `stepCheck_order`; `Lemmas/SessOrderStep.lean`:
+`OInv`, four phases, `order_step`). The other clauses of the Spec have their own theorems above. -/
+theorem callbacks_ordered_once_twisted (h : List SEv) (hw : wfHist false h = true) :
+    ∀ iv ∈ check .sync (traceOf (init .sync) h), iv.2.isOrder = false := by
+  intro iv hiv
+  cases hvo : iv.2.isOrder with
+  | false => rfl
+  | true =>
+    have := checkFrom_order 0 {} _ iv hiv hvo
+    rw [order_hist init_OInv h hw] at this
+    simp [oCheckFrom] at this
 
-/-- … on asyncio: GOODBYE one loop iteration after WELCOME — `onLeave` before `onJoin` -/
+/-- non-vacuity: the histories that refuted the statement before the repair, a conversation with raising hooks,
+overrides, local `leave()` / `disconnect()`, outstanding requests and a re-opened object are well-formed -/
+example : wfHist false [.open_ [], .msg .abort [], .msg .abort [], .closed []] = true := by decide
+example : wfHist false [.open_ [], .msg (.welcome 7) [], .msg .goodbye [], .msg (.welcome 9) [], .closed []] = true := by decide
+example : wfHist false [.open_ [{ raises := true }], .msg .challenge [{ ret := .val 1 }], .msg (.welcome 7) [{}, { raises := true }],
+    .api (.call 1 [] [] none .ok), .api .leave, .msg .goodbye [{ dflt := false, calls := [.api .disconnect] }], .msg .abort [],
+    .closed [{}, { raises := true }], .api (.call 1 [] [] none .ok), .open_ [], .msg .abort [{ raises := true }], .closed []] = true := by
+  decide
+
+/-- the hypothesis about `join()` is needed, and is the property's own: a session that joins again on the same transport
+(`join()` from inside `onLeave`; the code supports it, the record is cleared) shows join and leave a second time on one
+connection -/
+example : ¬ CleanEnd .sync [.open_ [], .msg (.welcome 7) [], .msg .goodbye [{ calls := [.api .join] }], .msg (.welcome 9) [],
+    .closed []] := by decide
+example : wfHist false [.open_ [], .msg (.welcome 7) [], .msg .goodbye [{ calls := [.api .join] }]] = false := by decide
+
+/-- what stays open is asyncio-only. GOODBYE one loop iteration after WELCOME — `onLeave` before `onJoin` -/
 theorem callbacks_ordered_once_fails_asyncio_goodbye_before_onJoin : ¬ CallbacksOrderedOnce := by
   intro h
   have := h .deferred [.open_ [], .pump, .msg (.welcome 7) [], .tick, .msg .goodbye [], .pump, .closed [], .pump]
